@@ -24,7 +24,7 @@ import (
 // the last operation were written but before its meta page was).
 
 type c26Op struct {
-	K string `json:"k"`           // enq del consume reopen image crash torn query
+	K string `json:"k"`           // enq burst del consume reopen image crash torn
 	D int    `json:"d,omitempty"` // enq: index = highest + D (D<=0: at/below the highest key); del: see F
 	F int    `json:"f,omitempty"` // del: index = F% of (highest+2); consume: how many receives to attempt
 	N int    `json:"n,omitempty"` // enq: payload size
@@ -44,8 +44,14 @@ func c26Gen(r *core.Rand, tier string) any {
 	wCons := r.Range(10, 30)
 	wRe := r.Range(2, 10)
 	big := r.Bool(0.3)
+	wBurst := 0
+	if r.Bool(0.3) {
+		wBurst = 3
+	}
 	for i := 0; i < n; i++ {
-		switch r.Weighted([]int{40, wDup, wDel, wCons, wRe, 3, 4, 4}) {
+		switch r.Weighted([]int{40, wDup, wDel, wCons, wRe, 3, 4, 4, wBurst}) {
+		case 8:
+			sc.Ops = append(sc.Ops, c26Op{K: "burst", F: r.Range(20, 150), N: r.Range(0, 700)})
 		case 0: // fresh enqueue
 			d := 1
 			if r.Bool(0.4) {
@@ -276,6 +282,22 @@ func c26Run(c *core.Ctx, raw json.RawMessage) {
 		synctest.Wait()
 		txBefore := c26LastTxid(path)
 		switch op.K {
+		case "burst":
+			// many fresh items at once (several bbolt leaf pages), checked once at the end
+			for i := 0; i < op.F; i++ {
+				idx := m.highest + uint64(1+i%2)
+				data := c26Payload(sc.Seed, idx, opn, op.N+(i*37)%200)
+				if err := q.Enqueue(&cdc.Event{Index: idx, Data: data}); err != nil {
+					c.Violate("enqueue-error", "Enqueue(%d): %v", idx, err)
+					return
+				}
+				m.items[idx] = data
+				m.highest = idx
+				nEnq++
+			}
+			if !observe(fmt.Sprintf("%d burst of %d", opn, op.F)) {
+				return
+			}
 		case "enq":
 			idx := uint64(0)
 			if d := int64(m.highest) + int64(op.D); d > 0 {
